@@ -80,11 +80,13 @@ pub fn gen_conc_run(verif_seed: u64, j: u64) -> ConcRun {
             // in one of two naming styles: different stems, or one stem with different extensions
             let kk = if k > 0 && rng.chance(1, 3) { 0 } else { k };
             let name = if same_stem { format!("label.t{}k{}", t, kk) } else { format!("t{}-{}.out", t, kk) };
+            // now and then the caller's own device is full (no stub involved in the failure)
+            let target = if faulty && rng.chance(1, 6) { Target::DevFullNamed(format!("{}.full", name)) } else { Target::Scratch(name) };
             ops.push(IoOp {
                 kind,
                 qr,
                 setters,
-                target: Target::Scratch(name),
+                target,
                 pre,
                 plan,
                 via_convert: rng.chance(1, 2),
